@@ -33,6 +33,7 @@ AllLeaves == { Lit("0", IntV(0)), Lit("1", IntV(1)), Lit("2", IntV(2)), Lit("3",
                \* the other spellings Python (and data/grammar.lark) has for an integer: digit separators, upper-case prefix
                Lit("1_0", IntV(10)), Lit("0X10", IntV(16)), Lit("0x_1f", IntV(31)),
                Lit("0.5", FltV(1, 2)), Lit("1.5", FltV(3, 2)), Lit("2.0", FltV(2, 1)),
+
                Lit("'a'", StrV("a")), Lit("\"b\"", StrV("b")), Lit("'12'", StrN("12", NumR(12))),
                \* strings whose content begins or ends with a quote character of the other kind
                Lit("\"'\"", StrV("'")), Lit("\"x'\"", StrV("x'")), Lit("'\"q\"'", StrV("\"q\"")) }
@@ -183,6 +184,14 @@ BigCases == UNION { { [text |-> b.text, val |-> BigInt(b.dec)],
                       [text |-> "int('" \o b.dec \o "')", val |-> BigInt(b.dec)],
                       [text |-> "int(str(" \o b.text \o "))", val |-> BigInt(b.dec)],
                       [text |-> "str(" \o b.text \o ")", val |-> [t |-> "str", s |-> b.dec]] } : b \in BigLits }
+\* floats that are exact in a double but take more than fifteen decimals to write out (2^-20, 3 * 2^-20): the value of
+\* each expression is written down without arithmetic on them (TLC's integers would overflow on their products)
+Tiny == "0.00000095367431640625"
+TinyCases == { [text |-> Tiny \o " + 0", val |-> FltV(1, 1048576)], [text |-> Tiny \o " * 1", val |-> FltV(1, 1048576)], [text |-> Tiny \o " - 0", val |-> FltV(1, 1048576)],
+               [text |-> Tiny \o " / 1", val |-> FltV(1, 1048576)], [text |-> Tiny \o " * 3", val |-> FltV(3, 1048576)], [text |-> "-" \o Tiny, val |-> FltV(-1, 1048576)],
+               [text |-> "float(" \o Tiny \o ")", val |-> FltV(1, 1048576)], [text |-> "1 / 1048576", val |-> FltV(1, 1048576)], [text |-> "3 / 1048576 + 0", val |-> FltV(3, 1048576)],
+               [text |-> "(" \o Tiny \o " + 0) * 2", val |-> FltV(1, 524288)] }
+EmitTiny == \A c \in TinyCases : PrintT("CASE " \o ToJson(c))
 EmitBig == \A c \in BigCases : PrintT("CASE " \o ToJson(c))
 Emit == \A e \in Generated : PrintT("CASE " \o ToJson(Case(e)))
 =============================================================================
